@@ -155,9 +155,12 @@ class CharacterClass(MutableSet[int]):
         if isinstance(other, CharacterClass):
             if self.negative:
                 if other.negative:
+                    # (P1 | ~N1) - (P2 | ~N2) = ((P1 & N2) | (N2 - N1)) - P2
+                    self.positive -= self.positive - other.negative
                     self.positive |= (other.negative - self.negative)
                     self.negative.clear()
-                self.negative |= other.positive
+                else:
+                    self.negative |= other.positive
             elif other.negative:
                 self.positive &= other.negative
             self.positive -= other.positive
